@@ -269,6 +269,17 @@ def builtin_call(name, args, checked):
             return (v[0], v[1], tuple(plain(x) for x in v[3])) if isinstance(v, tuple) and len(v) == 4 and v[0] == "variant" else v
         same = plain(args[0]) == plain(args[1])
         return (1 if same else 0) if name.endswith("eq") else (0 if same else 1)
+    if re.search(r"char::methods::<impl char>::to_digit$", name) and len(args) == 2 and all(isinstance(a, int) for a in args):
+        c_, r_ = args
+        d_ = c_ - 48 if 48 <= c_ <= 57 else (c_ - 97 + 10 if 97 <= c_ <= 122 else (c_ - 65 + 10 if 65 <= c_ <= 90 else None))
+        if d_ is not None and d_ < r_ and 2 <= r_ <= 36:
+            return ("variant", "Some", "core::option::Option", (d_,))
+        return ("variant", "None", "core::option::Option", ())
+    if re.search(r"char::methods::<impl char>::is_digit$", name) and len(args) == 2 and all(isinstance(a, int) for a in args):
+        return 1 if builtin_call("core::char::methods::<impl char>::to_digit", args, checked)[1] == "Some" else 0
+    if ends("Option::<T>::map") and len(args) == 2 and isinstance(args[0], tuple) and args[0][:1] == ("variant",):
+        # the variant survives; the payload is whatever the closure makes of it (not followed)
+        return args[0] if args[0][1] == "None" else ("variant", "Some", args[0][2], (None,))
     if ends("Option::<T>::is_none"):
         return 1 if args[0][1] == "None" else 0
     if ends("Option::<T>::is_some"):
